@@ -553,6 +553,7 @@ fn run_case(line: &str) -> String {
     let mut ss = Some(1u32);
     let mut sc = 1u32;
     let mut prec = 1000u128;
+    let mut max_ticks: Option<u64> = None;
     let mut threads = 1usize;
     let mut is_test = false;
     let mut cfg = Cfg::default();
@@ -568,6 +569,8 @@ fn run_case(line: &str) -> String {
             "ss" => ss = if val == "-" { None } else { Some(val.parse().expect("ss")) },
             "cost" => cfg.cost = val.parse().expect("cost"),
             "prec" => prec = val.parse().expect("prec"),
+            // time ceiling in virtual ticks (1 tick = 1 ns at the virtual frequency of 1 GHz)
+            "max" => max_ticks = if val == "-" { None } else { Some(val.parse::<u64>().expect("max")) },
             "FL" => cfg.f_limit = if val == "-" { None } else { Some(val.parse().expect("FL")) },
             "sc" => sc = val.parse().expect("sc"),
             "th" => threads = val.parse().expect("th"),
@@ -602,6 +605,7 @@ fn run_case(line: &str) -> String {
 
     let mut options = divan::__private::BenchOptions::default();
     options.sample_size = ss;
+    options.max_time = max_ticks.map(std::time::Duration::from_nanos);
     options.sample_count = Some(sc);
 
     let freq = 1_000_000_000u64;
